@@ -465,6 +465,9 @@ pub fn tree_case(r: &mut Rng, o: &TreeOpts) -> Case {
     }
     let kind = if o.path.is_empty() { o.fam.to_string() } else { format!("{}:{}", o.fam, o.path) };
     c.l(format!("mk 0 {} {}", kind, join(&v)));
+    if o.fam == "hqwt" || o.fam == "hwt" {
+        c.l("lenschk 0");
+    }
     for e in o.extra {
         c.l(e.to_string());
     }
